@@ -31,7 +31,7 @@ F9 = "F9-final-save-skipped-after-restoring-older-step-into-same-directory"
 
 def plan(tier):
     if tier == "quick":
-        return dict(shards=16, examples=64, time_budget_s=800, min_nontrivial=8, shrink_cap_s=120)
+        return dict(shards=16, examples=96, time_budget_s=800, min_nontrivial=8, shrink_cap_s=120)
     return dict(shards=16, examples=960, time_budget_s=3400, min_nontrivial=100)
 
 
@@ -40,14 +40,15 @@ def strategy(tier, shard):
 
     @st.composite
     def cases(draw):
-        problem = draw(ckpt.problem_descs())
-        solver = draw(ckpt.solver_descs(allow_shuffle=True))
-        f = draw(st.sampled_from([0, 1, 2, 3, 4, 2, 3]))
-        calls = [draw(st.integers(1, 9)) for _ in range(draw(st.integers(1, 3)))]
+        problem = draw(ckpt.problem_descs(rot=shard))
+        solver = draw(ckpt.solver_descs(allow_shuffle=True, rot=shard))
+        f = draw(st.sampled_from([1, 2, 3, 4, 2, 3, 1, 2, 0]))
+        calls = [draw(st.integers(1, 9)) for _ in range(draw(st.sampled_from([1, 2, 2, 3])))]
         rs = None
-        if f > 0 and len(calls) >= 2 and draw(st.booleans()):
+        if f > 0 and len(calls) >= 2 and draw(st.integers(0, 3)) > 0:
             rs = dict(after_call=draw(st.integers(1, len(calls) - 1)), step=draw(st.sampled_from(["latest", "latest", "older"])),
-                      new_dir=draw(st.booleans()), route="restore" if problem["kind"] != "tabular" and draw(st.booleans()) else "load")
+                      new_dir=draw(st.booleans()), route="restore" if problem["kind"] != "tabular" and draw(st.booleans()) else "load",
+                      freq0=draw(st.integers(0, 2)) == 0)
         return dict(problem=problem, solver=solver, f=f, m=draw(st.integers(1, 3)), async_=draw(st.booleans()), calls=calls, restore=rs)
 
     return cases()
@@ -89,8 +90,12 @@ def judge(case):
             step = None if rs["step"] == "latest" or len(stepsA) < 2 else stepsA[0]
             start = max(stepsA) if step is None else step
             seg2 = calls[rs["after_call"]:]
+            freq0 = bool(rs.get("freq0")) and rs["route"] == "restore"
             if rs["route"] == "restore":
                 o = {"new_checkpoint_dir": str(dirB)} if rs["new_dir"] else {}
+                if freq0:
+                    o["checkpoint_frequency"] = 0  # "with f = 0 nothing is written and no directory is created"
+                    classes.append("restore-with-frequency-0")
                 scen = dict(solver=dict(kind=kind, params={}), restore=dict(route="restore", dir=str(dirA), step=step, overrides=o),
                             calls=seg2, snapshot=True)
             else:
@@ -99,6 +104,14 @@ def judge(case):
             r2 = ckpt.run_ok(scen)
             if r2["error"]:
                 return verdict_fail("run-after-restore:" + r2["error"]["bucket"], f"{kind}/{problem['kind']}: {r2['error']}", classes=classes)
+            if freq0:
+                hashA = ckpt.tree_hash(dirA)  # taken after the restoring run: compare with the state before it
+                stepsA2, _ = ckpt.steps_in(dirA)
+                if r2["attrs"]["has_manager"] or dirB.exists() or stepsA2 != stepsA:
+                    return verdict_fail("frequency-zero-wrote-something",
+                                        f"restore(..., checkpoint_frequency=0) then solve{tuple(seg2)}: manager={r2['attrs']['has_manager']}, new directory "
+                                        f"exists={dirB.exists()}, original steps {stepsA} -> {stepsA2}", classes=classes)
+                return verdict_ok(nontrivial=True, classes=classes, sample=dict(kind=kind, f=f, m=m, calls=calls, restore=rs))
             ends2 = [c["iteration"] for c in r2["calls"]]
             new_saved = {n for n in range(start + 1, ends2[-1] + 1) if n % f == 0} | set(ends2)
             if rs["new_dir"]:
